@@ -259,7 +259,14 @@ def _body_mle(n, method, with_kwargs=False):
         scipy.optimize.minimize_scalar = fake_min
         scipy.special.zeta = lambda a, q: Sym(E, zeta(a.term if isinstance(a, Sym) else z3.RealVal(a), q.term if isinstance(q, Sym) else z3.RealVal(q)))
         try:
-            if with_kwargs:
+            if with_kwargs == "then-default":
+                # a call with caller options FIRST, then a plain call: the second one gets the documented defaults again
+                lo, hi = E.real("lo", lo=1), E.real("hi", lo=1)
+                E.assume(lo.term < hi.term)
+                stats.powerlaw_mle_alpha(np.array(cs, dtype=object), cmin=cmin, method="exact", bounds=(lo, hi), options={"xatol": 1e-3})
+                got = stats.powerlaw_mle_alpha(np.array(cs, dtype=object), cmin=cmin, method="exact")
+                want_kw = dict(bounds=[1.5, 4.5], method="bounded")
+            elif with_kwargs:
                 # "within its bounds": options given by the caller are passed on and take precedence over the documented defaults
                 lo, hi, tol = E.real("lo", lo=1), E.real("hi", lo=1), E.real("tol", lo=0)
                 E.assume(lo.term < hi.term)
@@ -274,7 +281,7 @@ def _body_mle(n, method, with_kwargs=False):
         finally:
             scipy.optimize.minimize_scalar, scipy.special.zeta = old_m, old_z
         kw = rec["kw"]
-        same = set(kw) == set(want_kw) and all(kw[k] is want_kw[k] or (not with_kwargs and kw[k] == want_kw[k]) or
+        same = set(kw) == set(want_kw) and all(kw[k] is want_kw[k] or (with_kwargs in (False, "then-default") and kw[k] == want_kw[k]) or
                                                (k == "options" and list(kw[k]) == ["xatol"] and kw[k]["xatol"] is want_kw[k]["xatol"]) or
                                                (k == "bounds" and len(kw[k]) == 2 and kw[k][0] is want_kw[k][0] and kw[k][1] is want_kw[k][1]) or
                                                (k == "method" and kw[k] == "bounded") for k in kw)
@@ -298,6 +305,24 @@ def _replay_mle(n, method, with_kwargs=False):
         kept = [c for c in cs if c >= cmin]
         if method == "exact" and not with_kwargs:
             return True, "wiring claim only"
+        if method == "exact" and with_kwargs == "then-default":
+            import scipy.optimize
+            seen = []
+            real_min = scipy.optimize.minimize_scalar
+
+            def spy(fun, **kw):
+                seen.append(dict(kw))
+                return real_min(fun, **kw)
+            scipy.optimize.minimize_scalar = spy
+            try:
+                sample = [1] * 40 + [2] * 9 + [3] * 4 + [5, 7, 12, 30]
+                stats.powerlaw_mle_alpha(sample, cmin=1, method="exact", bounds=(1.05, 1.3), options={"xatol": 1e-3})
+                got = float(stats.powerlaw_mle_alpha(sample, cmin=1, method="exact"))
+            finally:
+                scipy.optimize.minimize_scalar = real_min
+            ok = len(seen) == 2 and list(seen[1].get("bounds", ())) == [1.5, 4.5] and set(seen[1]) == {"bounds", "method"} and 1.5 - 1e-6 <= got <= 4.5 + 1e-6
+            return ok, (f"powerlaw_mle_alpha(..., 'exact') called after a call with bounds=(1.05, 1.3): scipy.optimize.minimize_scalar received "
+                        f"{seen[1] if len(seen) > 1 else seen}, estimate {got!r} (documented default bounds [1.5, 4.5])")
         if method == "exact":
             # real optimiser, caller's interval: the estimate lies inside it and no grid point of it has a visibly larger likelihood
             import scipy.special
@@ -377,6 +402,8 @@ def conditions(tier):
         for n in (1, 2, 3) + ((4,) if T else ()):
             out.append(Condition(f"C17/powerlaw_mle_alpha/{method}/n={n}", _body_mle(n, method), _replay_mle(n, method), budget=300, engine="SMT",
                                  bounds=f"{n} symbolic counts >= 1, symbolic cmin >= 1, method {method}"))
+    out.append(Condition("C17/powerlaw_mle_alpha/exact-default-after-caller-options/n=1", _body_mle(1, "exact", "then-default"), _replay_mle(1, "exact", "then-default"),
+                         budget=300, engine="SMT", bounds="a call with caller-supplied bounds, then a default call: the default call gets the documented options"))
     for n in (1, 2) + ((3,) if T else ()):
         out.append(Condition(f"C17/powerlaw_mle_alpha/exact-caller-options/n={n}", _body_mle(n, "exact", True), _replay_mle(n, "exact", True), budget=300,
                              engine="SMT", bounds=f"{n} symbolic counts, symbolic cmin, caller-supplied symbolic bounds lo < hi and optimiser options"))
